@@ -280,9 +280,7 @@ Definition deviation_witnesses : list (string * list value) := [
   ("~%~{~&~A~}", [ints [1]]);                                         (* ... and inside a block *)
   ("abc~{~5T~A~}", [ints [1]]);                                       (* column inside a block *)
   ("abc~2,4T|", []);                                                  (* ~colnum,colincT *)
-  ("~T|", []);
-  ("~:(~A~)", [VStr (tx "2nd")]);                                     (* words that start with a digit *)
-  ("~@(~A~)", [VStr (tx " hello world")])
+  ("~T|", [])
 ]%Z.
 Lemma deviations_hold : forallb deviates deviation_witnesses = true.
 Proof. vm_compute. reflexivity. Qed.
